@@ -29,8 +29,18 @@ What is proved, for programs whose lock instructions come from lock facts accept
 * `render_linearizable` (capstone) — a finished render thread's output is `render` of, per lookup of its spec in
   order, the sequential answer on the registry after SOME prefix of the commit order — prefixes that were the
   complete commit list at the moment of the respective lookup.
-* `generated_locks_ok`, `generated_no_tree_writes`, `generated_reach`, `atomic_generated` — the hypotheses
-  instantiated by `decide` with the facts regenerated from /repo by /verif/extract.
+* `commits_sub_specs` — every committed registration is the registration of a writer thread of the system
+  (`read_your_registration_keyOnly`: the consistency hypothesis discharged for key-only systems).
+* `generated_locks_ok`, `generated_no_tree_writes`, `generated_reach`, `atomic_generated`, `linearizable_generated`
+  — the hypotheses instantiated by `decide` with the facts regenerated from /repo by /verif/extract.
+
+Full vs partial.  All statements above are proved in full FOR THE MODEL, for every schedule and any number of threads.
+Relative to the property text the result is partial in exactly these respects: (1) the tie between the model and
+the Go code is the generated lock facts + `treeWrites = []` + the stress / race harness, not a proof; (2) an include
+is a separate, individually atomic lookup (so a render may combine a template version with a NEWER include version —
+`render_linearizable` says which combinations are possible: commit prefixes that only grow); (3) `Parse`
+(`getTreeByHash`) and the `verif` hooks are covered by `locksOk` but have no threads in the model; (4) the Go memory
+model, `sync.Pool` and the contents of a render are not modelled here (the latter is the interpreter model of C01-C05).
 
 Not modelled (see DESIGN.md §C06): the Go memory model, `sync.Pool`, real data races — exercised by the harness
 (`/verif/harness/c06.go`, incl. a `-race` run), which supports the tie and proves nothing.
@@ -38,15 +48,22 @@ Not modelled (see DESIGN.md §C06): the Go memory model, `sync.Pool`, real data 
 namespace DyntplV.C06
 open DyntplV DyntplV.Reg DyntplV.Conc
 
+/-! ## Invariant machinery -/
+
+/-- The registry after the rest of a writer's program has run ALONE from (local `idx`, registry), up to its `unlock`. -/
 def runW (id : Int) (key : Bytes) (tree : Tree) : List Instr → Option Nat × Db → Db
   | [], st => st.2
   | .unlock :: _, st => st.2
   | .wr o :: rest, st => runW id key tree rest (o.exec id key tree st)
   | _ :: rest, st => runW id key tree rest st
 
+/-- The six updates of the model's writer, run without interference, are exactly the sequential `Db.set`. -/
 theorem set_micro (id : Int) (key : Bytes) (tree : Tree) (idx : Option Nat) (db : Db) :
     runW id key tree (writerBody ++ [.unlock]) (idx, db) = db.set id key tree := rfl
 
+/-- Lock bracketing of a program, from the flags (holds read lock, holds write lock, between index and slot read):
+    registry reads only under the read lock, updates only under the write lock, the slot read directly after the
+    index read, render and program end with no lock held. -/
 def safe : Bool → Bool → Bool → List Instr → Bool
   | r, w, mid, [] => !r && !w && !mid
   | r, w, mid, .rlock :: rest => !r && !w && !mid && safe true false false rest
@@ -58,6 +75,7 @@ def safe : Bool → Bool → Bool → List Instr → Bool
   | r, w, mid, .wr _ :: rest => !r && w && !mid && safe false true false rest
   | r, w, mid, .render :: rest => !r && !w && !mid && safe false false false rest
 
+/-- Whatever follows a `lock` in the program amounts, run alone, to one `Db.set`. -/
 def lockToSet (id : Int) (key : Bytes) (tree : Tree) : List Instr → Prop
   | [] => True
   | .lock :: rest => (∀ idx db, runW id key tree rest (idx, db) = db.set id key tree) ∧ lockToSet id key tree rest
@@ -94,6 +112,7 @@ theorem index_slot (db : Db) (q : Query) : readSlot db (q.index db) = q.seq db :
         · have : db.tpl[i]? = none := by simp; omega
           simp [hi]; exact ih
 
+/-- Per-thread part of the invariant (shared components passed explicitly). -/
 structure ThreadOK (writer : Option Nat) (db committed base : Db) (commits : List Op) (i : Nat) (t : Thread) : Prop where
   safe : safe t.holdsR t.holdsW t.mid t.prog = true
   l2s : lockToSet t.id t.key t.tree t.prog
@@ -102,6 +121,11 @@ structure ThreadOK (writer : Option Nat) (db committed base : Db) (commits : Lis
   mid : t.mid = true → t.idx = t.cur.index db
   found : ∀ f ∈ t.found, f.seen ≤ commits.length ∧ f.res = f.q.seq (applyOps base (commits.take f.seen))
 
+/-- The invariant of the interleaving model: reader count = number of threads holding the read lock; the write lock
+    excludes readers and has exactly its owner; with the write lock free the registry is the committed one; the
+    committed registry is the initial one after the commits; a writer's remaining updates complete one `set` on the
+    committed registry; a lookup in progress holds the index it read from the current registry; finished lookups
+    answered sequentially on commit prefixes. -/
 structure Inv (s : Sys) : Prop where
   thr : ∀ i t, s.threads[i]? = some t → ThreadOK s.rw.writer s.db s.committed s.base s.commits i t
   cnt : s.rw.readers = s.threads.countP (·.holdsR)
@@ -157,6 +181,7 @@ theorem step_cases {render : RenderFn} {s s' : Sys} {i : Nat} (h : step render s
         exact ⟨t, ins, rest, t1, s1, ht, hp, he, by cases h; rfl⟩
 
 
+/-- One step of any thread preserves the invariant. -/
 theorem inv_step {render : RenderFn} {s s' : Sys} {i : Nat} (hinv : Inv s) (h : step render s i = some s') :
     Inv s' := by
   obtain ⟨t, ins, rest, t1, s1, ht, hp, he, rfl⟩ := step_cases h
@@ -694,6 +719,271 @@ theorem consistent_keyOnly {hist : List Op} (h : ∀ o ∈ hist, o.id < 0) : Con
   have := h a ha
   omega
 
+/-! ## Capstone: a finished render is the sequential render of committed versions -/
+
+/-- The queries of the index reads still to come. -/
+def rdQs : List Instr → List Query
+  | [] => []
+  | .rdIdx q :: r => q :: rdQs r
+  | _ :: r => rdQs r
+
+/-- Lookups not finished yet: the one in progress, then the ones still in the program. -/
+def pendingQs (mid : Bool) (cur : Query) (prog : List Instr) : List Query :=
+  (if mid then [cur] else []) ++ rdQs prog
+
+/-- What a reader thread looks like relative to its spec, at any time. -/
+structure ReaderRel (render : RenderFn) (qs : List Query) (ctx : Nat) (t : Thread) : Prop where
+  ctx : t.ctx = ctx
+  /-- finished lookups, then the pending ones = the lookups of the spec, in order -/
+  qs : t.found.map (·.q) ++ pendingQs t.mid t.cur t.prog = qs
+  /-- the commit counts seen by successive lookups never decrease -/
+  mono : List.Pairwise (· ≤ ·) (t.found.map (·.seen))
+  /-- either the (single, final) render is still to come and nothing is written, or the thread is finished and has
+      written the render of what it found -/
+  out : (∃ pre, t.prog = pre ++ [.render] ∧ Instr.render ∉ pre ∧ t.out = none) ∨
+        (t.prog = [] ∧ t.out = some (render (t.found.map (fun f => f.res.map (·.tree))) t.ctx))
+
+def RelAll (render : RenderFn) (specs : List ThreadSpec) (s : Sys) : Prop :=
+  ∀ (i : Nat) (qs : List Query) (ctx : Nat) (t : Thread),
+    specs[i]? = some (ThreadSpec.reader qs ctx) → s.threads[i]? = some t → ReaderRel render qs ctx t
+
+theorem rdQs_lookups {g : Guards} (hg : GuardsOk g) : ∀ qs : List Query,
+    rdQs (qs.flatMap (lookupProg g) ++ [.render]) = qs
+  | [] => rfl
+  | q :: qs => by
+    simp only [List.flatMap_cons, lookupProg, guards_method hg q, if_true, List.cons_append, List.nil_append, rdQs]
+    rw [rdQs_lookups hg qs]
+
+theorem noRender_lookups {g : Guards} : ∀ qs : List Query, Instr.render ∉ qs.flatMap (lookupProg g)
+  | [] => by simp
+  | q :: qs => by
+    have ih := noRender_lookups (g := g) qs
+    simp only [List.flatMap_cons, List.mem_append, not_or]
+    refine ⟨?_, ih⟩
+    unfold lookupProg
+    split <;> simp
+
+theorem relAll_init {render : RenderFn} {g : Guards} (hg : GuardsOk g) (db0 : Db) (specs : List ThreadSpec) :
+    RelAll render specs (Sys.init g db0 specs) := by
+  intro i qs ctx t hsp ht
+  simp only [Sys.init, List.getElem?_map, hsp, Option.map_some, Option.some.injEq] at ht
+  subst ht
+  refine ⟨rfl, ?_, by simp [ThreadSpec.thread], Or.inl ⟨qs.flatMap (lookupProg g), rfl, noRender_lookups qs, rfl⟩⟩
+  simp [ThreadSpec.thread, ThreadSpec.prog, pendingQs, rdQs_lookups hg qs]
+
+theorem relAll_step {render : RenderFn} {specs : List ThreadSpec} {s s' : Sys} {i : Nat} (hinv : Inv s)
+    (hrel : RelAll render specs s) (h : step render s i = some s') : RelAll render specs s' := by
+  obtain ⟨t, ins, rest, t1, s1, ht, hp, he, rfl⟩ := step_cases h
+  intro j qs ctx tj hsp hj
+  have hthreads : s1.threads = s.threads := (exec_frame he).2.1
+  simp only [hthreads] at hj
+  rcases get_set_cases hj with ⟨rfl, rfl⟩ | ⟨_, hj'⟩
+  case inr => exact hrel j qs ctx tj hsp hj'
+  have old := hrel j qs ctx t hsp ht
+  have hsafe := (hinv.thr j t ht).safe
+  rw [hp] at hsafe
+  have hq := old.qs
+  rw [hp] at hq
+  -- the output clause for every instruction but `render`
+  have outKeep : ins ≠ .render → t1.out = t.out →
+      ((∃ pre, rest = pre ++ [.render] ∧ Instr.render ∉ pre ∧ t1.out = none) ∨
+        (rest = [] ∧ t1.out = some (render (t1.found.map (fun f => f.res.map (·.tree))) t1.ctx))) := by
+    intro hne hout
+    rcases old.out with ⟨pre, hpre, hnr, hnone⟩ | ⟨hnil, _⟩
+    · rw [hp] at hpre
+      cases pre with
+      | nil => simp at hpre; exact absurd hpre.1 hne
+      | cons a pre' =>
+        simp only [List.cons_append, List.cons.injEq] at hpre
+        exact Or.inl ⟨pre', hpre.2, fun hm => hnr (List.mem_cons_of_mem _ hm), by rw [hout, hnone]⟩
+    · rw [hp] at hnil; cases hnil
+  cases ins with
+  | rdIdx q =>
+    simp only [exec, Option.some.injEq, Prod.mk.injEq] at he
+    obtain ⟨rfl, rfl⟩ := he
+    simp [safe] at hsafe
+    refine ⟨old.ctx, ?_, old.mono, outKeep (by simp) rfl⟩
+    simpa [pendingQs, rdQs, hsafe.1.2] using hq
+  | rdSlot =>
+    simp only [exec, Option.some.injEq, Prod.mk.injEq] at he
+    obtain ⟨rfl, rfl⟩ := he
+    simp [safe] at hsafe
+    refine ⟨old.ctx, ?_, ?_, outKeep (by simp) rfl⟩
+    · simpa [pendingQs, rdQs, hsafe.1.2] using hq
+    · simp only [List.map_append, List.map_cons, List.map_nil, List.pairwise_append, List.pairwise_cons,
+        List.mem_map, List.mem_singleton]
+      refine ⟨old.mono, ⟨by simp, List.Pairwise.nil⟩, ?_⟩
+      rintro a ⟨f, hf, rfl⟩ b rfl
+      exact ((hinv.thr j t ht).found f hf).1
+  | render =>
+    simp only [exec, Option.some.injEq, Prod.mk.injEq] at he
+    obtain ⟨rfl, rfl⟩ := he
+    refine ⟨old.ctx, ?_, old.mono, ?_⟩
+    · simpa [pendingQs, rdQs] using hq
+    · rcases old.out with ⟨pre, hpre, hnr, _⟩ | ⟨hnil, _⟩
+      · rw [hp] at hpre
+        cases pre with
+        | nil => simp at hpre; exact Or.inr ⟨hpre, rfl⟩
+        | cons a pre' =>
+          simp only [List.cons_append, List.cons.injEq] at hpre
+          exact absurd (hpre.1 ▸ List.mem_cons_self) hnr
+      · rw [hp] at hnil; cases hnil
+  | rlock | runlock | lock | unlock =>
+    simp only [exec] at he
+    split at he
+    · cases he
+    · simp only [Option.some.injEq, Prod.mk.injEq] at he
+      obtain ⟨rfl, rfl⟩ := he
+      exact ⟨old.ctx, by simpa [pendingQs, rdQs] using hq, old.mono, outKeep (by simp) rfl⟩
+  | wr o =>
+    simp only [exec, Option.some.injEq, Prod.mk.injEq] at he
+    obtain ⟨rfl, rfl⟩ := he
+    exact ⟨old.ctx, by simpa [pendingQs, rdQs] using hq, old.mono, outKeep (by simp) rfl⟩
+
+theorem relAll_reachable {render : RenderFn} {g : Guards} {db0 : Db} {specs : List ThreadSpec} {s : Sys}
+    (hg : GuardsOk g) (hr : Reachable render (Sys.init g db0 specs) s) : Inv s ∧ RelAll render specs s := by
+  induction hr with
+  | refl => exact ⟨inv_init hg db0 specs, relAll_init hg db0 specs⟩
+  | step _ hs ih => exact ⟨inv_step ih.1 hs, relAll_step ih.1 ih.2 hs⟩
+
+/-- **A finished render is linearizable.**  Take any schedule and any thread `i` that was started as a render with
+    lookups `qs` (the template's own lookup, then one per include met) and context `ctx`, and that has finished.
+    Then it performed exactly the lookups `qs`, in order; the `n`-th one answered like the SEQUENTIAL getter on the
+    initial registry after the first `seenₙ` committed registrations — a prefix of the commit order that was the
+    complete commit list at the moment of that lookup, `seen₁ ≤ seen₂ ≤ … ≤` the final commit count — and the output
+    is `render` of exactly those trees and `ctx`: what the render would return running alone against those versions;
+    never a mixture within one lookup, never a half-registered template. -/
+theorem render_linearizable {render : RenderFn} {g : Guards} {db0 : Db} {specs : List ThreadSpec} {s : Sys}
+    (hg : GuardsOk g) (hr : Reachable render (Sys.init g db0 specs) s)
+    {i : Nat} {qs : List Query} {ctx : Nat} {t : Thread}
+    (hsp : specs[i]? = some (.reader qs ctx)) (ht : s.threads[i]? = some t) (hdone : t.prog = []) :
+    t.found.map (·.q) = qs ∧
+    List.Pairwise (· ≤ ·) (t.found.map (·.seen)) ∧ (∀ f ∈ t.found, f.seen ≤ s.commits.length) ∧
+    t.out = some (render
+      (t.found.map (fun f => (f.q.seq (applyOps db0 (s.commits.take f.seen))).map (·.tree))) ctx) := by
+  obtain ⟨hinv, hrel⟩ := relAll_reachable hg hr
+  have rel := hrel i qs ctx t hsp ht
+  have hfs := found_sequential hg hr ht
+  have hsafe := (hinv.thr i t ht).safe
+  rw [hdone] at hsafe
+  simp [safe] at hsafe
+  refine ⟨?_, rel.mono, fun f hf => (hfs f hf).1, ?_⟩
+  · have := rel.qs
+    rw [hdone] at this
+    simpa [pendingQs, rdQs, hsafe.2] using this
+  · rcases rel.out with ⟨pre, hpre, _, _⟩ | ⟨_, hout⟩
+    · rw [hdone] at hpre
+      cases pre <;> simp at hpre
+    · rw [hout, rel.ctx]
+      congr 2
+      apply List.map_congr_left
+      intro f hf
+      rw [(hfs f hf).2]
+
+/-! ## Every committed registration is the registration of a writer thread -/
+
+structure SpecRel (g : Guards) (sp : ThreadSpec) (t : Thread) : Prop where
+  op : t.op = (sp.thread g).op
+  noUnlock : ∀ qs ctx, sp = .reader qs ctx → Instr.unlock ∉ t.prog
+
+structure CommitsRel (g : Guards) (specs : List ThreadSpec) (s : Sys) : Prop where
+  len : s.threads.length = specs.length
+  thr : ∀ (i : Nat) (sp : ThreadSpec) (t : Thread), specs[i]? = some sp → s.threads[i]? = some t → SpecRel g sp t
+  commits : ∀ o ∈ s.commits, ∃ (i : Nat) (id : Int) (key : Bytes) (tree : Tree),
+    specs[i]? = some (.writer id key tree) ∧ o = ⟨id, key, tree⟩
+
+theorem noUnlock_lookups {g : Guards} : ∀ qs : List Query, Instr.unlock ∉ qs.flatMap (lookupProg g) ++ [.render]
+  | [] => by simp
+  | q :: qs => by
+    have ih := noUnlock_lookups (g := g) qs
+    simp only [List.flatMap_cons, List.append_assoc, List.mem_append, not_or] at ih ⊢
+    refine ⟨?_, ih⟩
+    unfold lookupProg
+    split <;> simp
+
+theorem commitsRel_init (g : Guards) (db0 : Db) (specs : List ThreadSpec) :
+    CommitsRel g specs (Sys.init g db0 specs) := by
+  refine ⟨by simp [Sys.init], ?_, by simp [Sys.init]⟩
+  intro i sp t hsp ht
+  simp only [Sys.init, List.getElem?_map, hsp, Option.map_some, Option.some.injEq] at ht
+  subst ht
+  refine ⟨rfl, ?_⟩
+  intro qs ctx h
+  subst h
+  exact noUnlock_lookups qs
+
+theorem commitsRel_step {render : RenderFn} {g : Guards} {specs : List ThreadSpec} {s s' : Sys} {i : Nat}
+    (hrel : CommitsRel g specs s) (h : step render s i = some s') : CommitsRel g specs s' := by
+  obtain ⟨t, ins, rest, t1, s1, ht, hp, he, rfl⟩ := step_cases h
+  obtain ⟨_, hthreads, _, hid, hkey, htree, _⟩ := exec_frame he
+  have hlen : i < specs.length := by rw [← hrel.len]; exact (List.getElem?_eq_some_iff.1 ht).1
+  obtain ⟨sp, hsp⟩ : ∃ sp, specs[i]? = some sp := ⟨specs[i], List.getElem?_eq_getElem hlen⟩
+  have old := hrel.thr i sp t hsp ht
+  refine ⟨by simp [hthreads, hrel.len], ?_, ?_⟩
+  · intro j spj tj hspj hj
+    simp only [hthreads] at hj
+    rcases get_set_cases hj with ⟨rfl, rfl⟩ | ⟨_, hj'⟩
+    · have oldj := hrel.thr j spj t hspj ht
+      refine ⟨?_, ?_⟩
+      · rw [← oldj.op]; simp only [Thread.op, hid, hkey, htree]
+      · intro qs ctx hh hm
+        exact oldj.noUnlock qs ctx hh (by rw [hp]; exact List.mem_cons_of_mem _ hm)
+    · exact hrel.thr j spj tj hspj hj'
+  · cases ins
+    case unlock =>
+      simp only [exec] at he
+      split at he
+      · cases he
+      · simp only [Option.some.injEq, Prod.mk.injEq] at he
+        obtain ⟨rfl, rfl⟩ := he
+        intro o ho
+        simp only [List.mem_append, List.mem_singleton] at ho
+        rcases ho with ho | rfl
+        · exact hrel.commits o ho
+        · cases sp with
+          | reader qs ctx => exact absurd (by rw [hp]; exact List.mem_cons_self) (old.noUnlock qs ctx rfl)
+          | writer id key tree => exact ⟨i, id, key, tree, hsp, by rw [old.op]; rfl⟩
+    all_goals
+      simp only [exec] at he
+      first
+        | (split at he
+           · cases he
+           · simp only [Option.some.injEq, Prod.mk.injEq] at he
+             obtain ⟨rfl, rfl⟩ := he
+             exact hrel.commits)
+        | (simp only [Option.some.injEq, Prod.mk.injEq] at he
+           obtain ⟨rfl, rfl⟩ := he
+           exact hrel.commits)
+
+/-- Every committed registration is the registration of one of the writer threads of the system. -/
+theorem commits_sub_specs {render : RenderFn} {g : Guards} {db0 : Db} {specs : List ThreadSpec} {s : Sys}
+    (hr : Reachable render (Sys.init g db0 specs) s) :
+    ∀ o ∈ s.commits, ThreadSpec.writer o.id o.key o.tree ∈ specs := by
+  have : CommitsRel g specs s := by
+    induction hr with
+    | refl => exact commitsRel_init g db0 specs
+    | step _ hs ih => exact commitsRel_step ih hs
+  intro o ho
+  obtain ⟨i, id, key, tree, hsp, rfl⟩ := this.commits o ho
+  exact List.mem_of_getElem? hsp
+
+/-- `read_your_registration` with its consistency hypothesis discharged for systems that only use `RegisterTplKey`
+    (all IDs negative), as the stress harness' include templates do. -/
+theorem read_your_registration_keyOnly {render : RenderFn} {g : Guards} {hist0 : List Op} {specs : List ThreadSpec}
+    {s₁ s₂ s₂' : Sys} (hg : GuardsOk g)
+    (hr₁ : Reachable render (Sys.init g (run hist0) specs) s₁) (hr₂ : Reachable render s₁ s₂)
+    (h0 : ∀ o ∈ hist0, o.id < 0) (hw0 : ∀ id key tree, ThreadSpec.writer id key tree ∈ specs → id < 0)
+    {k : Bytes} {w : Op} {pre mid : List Op} (hw : s₁.commits = pre ++ w :: mid) (hk : w.key = k) (hn : k ≠ noKey)
+    {i : Nat} {t : Thread} (ht : s₂.threads[i]? = some t) {rest : List Instr} (hp : t.prog = .rdSlot :: rest)
+    (hcur : t.cur = .key k) (hs : step render s₂ i = some s₂') :
+    ∃ t' r tr post, s₂'.threads[i]? = some t' ∧ t'.found = t.found ++ [⟨.key k, r, s₂.commits.length⟩] ∧
+      s₂.commits = pre ++ w :: post ∧ r.map (·.tree) = some tr ∧ (tr = w.tree ∨ ∃ x ∈ post, x.tree = tr) := by
+  refine read_your_registration hg hr₁ hr₂ hw hk hn ht hp hcur hs (consistent_keyOnly ?_)
+  intro o ho
+  rcases List.mem_append.1 ho with h | h
+  · exact h0 o h
+  · exact hw0 _ _ _ (commits_sub_specs (hr₁.trans hr₂) o h)
+
 /-! ## The lock discipline the theorems assume, as a decidable predicate on the generated facts
 
 `locksOk` is SUFFICIENT for the theorems, not necessary (e.g. a getter taking the full `Lock` would be safe too but is
@@ -824,6 +1114,17 @@ theorem atomic_generated {render : RenderFn} {db0 : Db} {specs : List ThreadSpec
   ⟨quiescent_only gen_ok hr, fun _ _ ht => found_sequential gen_ok hr ht,
    fun _ _ _ _ ht hp hs => atomic_get gen_ok hr ht hp hs, fun _ _ _ ht hp => render_snapshot ht hp⟩
 
+/-- The capstone for the code as it is. -/
+theorem linearizable_generated {render : RenderFn} {db0 : Db} {specs : List ThreadSpec} {s : Sys}
+    (hr : Reachable render (Sys.init gen db0 specs) s)
+    {i : Nat} {qs : List Query} {ctx : Nat} {t : Thread}
+    (hsp : specs[i]? = some (.reader qs ctx)) (ht : s.threads[i]? = some t) (hdone : t.prog = []) :
+    t.found.map (·.q) = qs ∧
+    List.Pairwise (· ≤ ·) (t.found.map (·.seen)) ∧ (∀ f ∈ t.found, f.seen ≤ s.commits.length) ∧
+    t.out = some (render
+      (t.found.map (fun f => (f.q.seq (applyOps db0 (s.commits.take f.seen))).map (·.tree))) ctx) :=
+  render_linearizable gen_ok hr hsp ht hdone
+
 end generated
 
 /-! ## Non-vacuity: a concrete system — two readers and one writer on key `k0`, registered with version A
@@ -885,6 +1186,15 @@ example : (after schedFull).commits = [⟨-1, k0, vB⟩] := by decide
 example : ∀ f ∈ ((after schedFull).threads[2]?.map (·.found)).getD [],
     f.seen = 1 ∧ f.res = f.q.seq (applyOps (run hist0) ((after schedFull).commits.take f.seen)) := by decide
 
+-- render_linearizable on the finished reader 2: one lookup, answered on the registry after the first commit, "B8"
+def tF2 : Thread := ((after schedFull).threads[2]?).getD (ThreadSpec.thread gen (.reader [] 0))
+example : tF2.found.map (·.q) = [.key k0] ∧ tF2.out = some (rnd (tF2.found.map (fun f =>
+    (f.q.seq (applyOps (run hist0) ((after schedFull).commits.take f.seen))).map (·.tree))) 8) :=
+  have h := render_linearizable (render := rnd) (g := gen) (db0 := run hist0) (specs := specs0) gen_ok
+    (runSched_reachable _ hFull) (i := 2) (qs := [.key k0]) (ctx := 8) (t := tF2) (by decide) (by decide) (by decide)
+  ⟨h.1, h.2.2.2⟩
+example : tF2.out = some (lit "B8") ∧ tF2.found.map (·.seen) = [1] := by decide
+
 /-- (d) read_your_registration: after the writer's `Unlock` (state `s₁`), reader 2 locks, reads the index (`s₂`) and
     then reads the slot: it finds version B -/
 def schedW : List Nat := [1, 1, 1, 1, 1, 1, 1, 1]
@@ -901,6 +1211,23 @@ example : ∃ t' r tr post, (after (schedW2 ++ [2])).threads[2]? = some t' ∧
     (runSched_reachable _ hW) (runSched_reachable _ hW2) (k := k0) (w := ⟨-1, k0, vB⟩) (pre := []) (mid := [])
     (by decide) rfl (by decide) (i := 2) (t := tW2)
     (by decide) (rest := [.runlock, .render]) (by decide) (by decide) (by decide) (by decide)
+-- the key-only corollary applies to this system too (no ID is used anywhere), and commits come from the specs
+example : ∀ o ∈ (after schedW2).commits, ThreadSpec.writer o.id o.key o.tree ∈ specs0 :=
+  commits_sub_specs ((runSched_reachable _ hW).trans (runSched_reachable _ hW2))
+theorem specs0_keyOnly : ∀ id key tree, ThreadSpec.writer id key tree ∈ specs0 → id < 0 := by
+  intro id key tree h
+  simp only [specs0, List.mem_cons, List.not_mem_nil, or_false, reduceCtorEq, false_or] at h
+  cases h; decide
+example : ∃ t' r tr post, (after (schedW2 ++ [2])).threads[2]? = some t' ∧
+    t'.found = tW2.found ++ [⟨.key k0, r, (after schedW2).commits.length⟩] ∧
+    (after schedW2).commits = [] ++ (⟨-1, k0, vB⟩ : Op) :: post ∧ r.map (·.tree) = some tr ∧
+    (tr = (⟨-1, k0, vB⟩ : Op).tree ∨ ∃ x ∈ post, x.tree = tr) :=
+  read_your_registration_keyOnly (render := rnd) (g := gen) (hist0 := hist0) (specs := specs0)
+    (s₁ := after schedW) (s₂ := after schedW2) (s₂' := after (schedW2 ++ [2])) gen_ok
+    (runSched_reachable _ hW) (runSched_reachable _ hW2) (by decide) specs0_keyOnly
+    (k := k0) (w := ⟨-1, k0, vB⟩) (pre := []) (mid := [])
+    (by decide) rfl (by decide) (i := 2) (t := tW2)
+    (by decide) (rest := [.runlock, .render]) (by decide) (by decide) (by decide)
 -- … and what it found is version B
 example : view (after (schedW2 ++ [2])) = ([[], [], [some 1]], [none, none, none]) := by decide
 
